@@ -962,3 +962,72 @@ def c12_pairs(seed):
   return [dict(a=ImportSide(files, main_text, 'T', roots, label='split over files'),
                b=Side(flat_text, 'T', label='flattened'),
                tables=tables, K=2, strings_list=[], label='imports/%s' % layout)]
+
+
+# ---------------------------------------------------------------- C14(b): compiled plans as workflows
+
+def c14_pairs(seed):
+  rnd = random.Random(seed ^ 0xc14)
+  A = gen.A
+  x, y, z = Var('x'), Var('y'), Var('z')
+  kind = ['ground_chain', 'ground_diamond', 'deep_rec', 'ground_diamond', 'final_and_intermediate',
+          'two_recursions'][seed % 6]
+  pairs = []
+  if kind == 'deep_rec':
+    case = gen.recdeep_case(seed)
+    p = case.check[0]
+    rules = list(case.prog.rules) + [Rule('Reader', [x], distinct=True,
+                                          body=(A(p, x) if len(case.prog.rules_of(p)[0].args) == 1 else A(p, x, y)))]
+    prog = Program(rules, case.prog.annotations, gen.EXT)
+    preds = [p, 'Reader']
+    K = case.K
+  elif kind == 'two_recursions':
+    rules = [Rule('Ra', [x], distinct=True, body=A('G', x)),
+             Rule('Ra', [y], distinct=True, body=Conj([A('Ra', x), A('E', x, y)])),
+             Rule('Rb', [x], distinct=True, body=A('Ra', x)),
+             Rule('Rb', [y], distinct=True, body=Conj([A('Rb', x), A('F', x, y)]))]
+    prog = Program(rules, ['@Recursive(Ra, %d);' % rnd.choice([21, 22]), '@Recursive(Rb, %d);' % rnd.choice([21, 23])], gen.EXT)
+    preds = ['Rb', 'Ra']
+    K = 2
+  else:
+    rules = [Rule('Shared', [x, y], body=rnd.choice([A('E', x, y), Conj([A('E', x, z), A('F', z, y)])]))]
+    ann = ['@Ground(Shared);']
+    if kind == 'ground_chain':
+      rules.append(Rule('Mid', [x], distinct=True, body=A('Shared', x, y)))
+      rules.append(Rule('Top', [x], body=Conj([A('Mid', x), A('G', x)])))
+      ann.append('@Ground(Mid);')
+      preds = ['Top', 'Mid']
+    elif kind == 'ground_diamond':
+      # a grounded table read by two table-producing statements whose names sort on both
+      # sides of it
+      n1, n2 = rnd.choice([('Alpha', 'Beta'), ('Zeta', 'Alpha'), ('Tau', 'Upsilon'), ('Beta', 'Alpha')])
+      rules.append(Rule(n1, [x], distinct=True, body=A('Shared', x, y)))
+      rules.append(Rule(n2, [y], distinct=True, body=A('Shared', x, y)))
+      rules.append(Rule('Report', [x], body=Conj([A(n1, x), A(n2, x)])))
+      ann += ['@Ground(%s);' % n1, '@Ground(%s);' % n2]
+      preds = ['Report', n2]
+    else:
+      rules.append(Rule('Mid', [x], distinct=True, body=A('Shared', x, y)))
+      rules.append(Rule('Top', [x], body=Conj([A('Mid', x), A('G', x)])))
+      ann.append('@Ground(Mid);')
+      preds = ['Top', 'Shared']    # Shared is final in one execution and intermediate in the other
+    prog = Program(rules, ann, gen.EXT)
+    K = 2
+  text = prog.text()
+  tables = sorted({t for t in ('E', 'F', 'G', 'W') if (t + '(') in text})
+  common = dict(tables=tables, K=K, strings_list=[])
+  for p in preds:
+    # asking for several predicates at once returns for each the same table as asking alone
+    pairs.append(dict(a=Side(text, p, workflow=True, preds=preds, label='asked together'),
+                      b=Side(text, p, workflow=True, preds=[p], label='asked alone'),
+                      label='%s/%s together-vs-alone' % (kind, p), **common))
+    if len(preds) > 1:
+      pairs.append(dict(a=Side(text, p, workflow=True, preds=list(reversed(preds)), label='asked together, other order'),
+                        b=Side(text, p, workflow=True, preds=[p], label='asked alone'),
+                        label='%s/%s together(reversed)-vs-alone' % (kind, p), **common))
+    # the workflow gives what the single script gives
+    if kind not in ('deep_rec', 'two_recursions'):
+      pairs.append(dict(a=Side(text, p, workflow=True, preds=[p], label='workflow'),
+                        b=Side(text, p, label='script'),
+                        label='%s/%s workflow-vs-script' % (kind, p), **common))
+  return pairs
